@@ -3,6 +3,7 @@
 package querylog
 
 import (
+	"math"
 	"bytes"
 	"context"
 	"fmt"
@@ -194,12 +195,14 @@ func (m *c20Mon) fail(key, format string, a ...any) {
 func c20Targets(r *vfRand, lines []c20Line, max int) (ts []int64) {
 	n := len(lines)
 	if n == 0 {
-		return []int64{1, 1700000000000000000}
+		return []int64{1, 1700000000000000000, math.MinInt64, c20Year1700, math.MaxInt64}
 	}
 	add := func(i int) {
 		ts = append(ts, lines[i].ts)
-		if i+1 < n && lines[i+1].ts-lines[i].ts > 1 {
-			ts = append(ts, lines[i].ts+r.Range(1, lines[i+1].ts-lines[i].ts-1))
+		if i+1 < n {
+			if b, ok := c20Between(r, lines[i].ts, lines[i+1].ts); ok {
+				ts = append(ts, b)
+			}
 		}
 	}
 	if n <= max {
@@ -216,6 +219,8 @@ func c20Targets(r *vfRand, lines []c20Line, max int) (ts []int64) {
 		}
 	}
 	ts = append(ts, lines[0].ts-1, lines[0].ts-r.Range(2, 1000000), lines[n-1].ts+1, lines[n-1].ts+r.Range(2, 1000000))
+	// round 9: targets anywhere in the int64 nanosecond range (zz_verif_C20range_test.go)
+	ts = append(ts, c20FarTargets(r, lines)...)
 	vfShuffle(r, ts)
 	return ts
 }
@@ -451,7 +456,7 @@ func c20FileCase(t *testing.T, out *vfOut, r *vfRand, dir string, kind string, l
 		default:
 			cls["seek-code-"+strconv.FormatInt(code, 10)] = true
 			if code != want[rank] {
-				mon.fail("seek-absent-class", "seek of absent stamp (rank %d): class %d, want %d (%v)", rank, code, want[rank], serr)
+				mon.fail("seek-absent-class", "seek of absent stamp %d (rank %d; first stored stamp %d): class %d, want %d (%v)", ts, rank, c20FirstStamp(lines), code, want[rank], serr)
 			}
 			if q.position != before {
 				mon.fail("seek-absent-moved", "failed seek moved the position %d -> %d", before, q.position)
@@ -960,6 +965,9 @@ func TestVerifC20(t *testing.T) {
 
 	// ---- byte-level cases (zz_verif_C20bytes_test.go)
 	c20BytesCases(t, out, dir, rnd, sched)
+
+	// ---- round 9: stamps and targets over the whole int64 range (zz_verif_C20range_test.go)
+	c20RangeCases(t, out, dir, rnd, sched)
 
 	// ---- reader-reuse histories (zz_verif_C20hist_test.go)
 	nHist := out.Scale(150, 1200)
